@@ -14,6 +14,7 @@ pub struct ModelCfg {
     pub piecewise: bool,
     pub unbounded: bool, // allow infinite declarations
     pub fractional: bool,
+    pub strict_cmp: bool,
 }
 
 pub fn coef(r: &mut Rng, fractional: bool) -> f64 {
@@ -134,6 +135,10 @@ pub fn build(opt: OptimizationType, objective: Exp, constraints: Vec<Constraint>
 
 pub fn model(r: &mut Rng, c: &ModelCfg) -> (Model, Vec<VarDecl>) {
     let ds = decls(r, c);
+    model_with(r, c, ds)
+}
+
+pub fn model_with(r: &mut Rng, c: &ModelCfg, ds: Vec<VarDecl>) -> (Model, Vec<VarDecl>) {
     let ncons = 1 + r.below(4);
     let mut cons = vec![];
     let names = ["", "", "", "a", "b", "a", "cap"];
@@ -146,7 +151,7 @@ pub fn model(r: &mut Rng, c: &ModelCfg) -> (Model, Vec<VarDecl>) {
             // comparison of a logic value against a constant (normalised by the linearizer)
             let k = *r.pick(&[0.0, 1.0, 1.0, 0.5, 2.0, -1.0]);
             let e = bool_exp(r, &ds, c, c.depth);
-            let cmp = *r.pick(&[Comparison::LessOrEqual, Comparison::GreaterOrEqual, Comparison::Equal, Comparison::Less, Comparison::Greater]);
+            let cmp = if c.strict_cmp { *r.pick(&[Comparison::LessOrEqual, Comparison::GreaterOrEqual, Comparison::Equal, Comparison::Less, Comparison::Greater]) } else { comparison(r) };
             if r.chance(1, 2) { cons.push(Constraint::new(e, cmp, Exp::Number(k), name)); } else { cons.push(Constraint::new(Exp::Number(k), cmp, e, name)); }
         } else {
             let lhs = num_exp(r, &ds, c, c.depth);
